@@ -10,8 +10,8 @@ from ..core import frac
 
 ID = "C04"
 THREADS = True       # part of the cases run concurrently in threads of one interpreter (the schedule dimension)
-MODULES = ["TWV.Tie.ArrayHelpers", "TWV.Properties.RfaImp", "TWV.Tie.RfaLoops", "TWV.Properties.C04", "TWV.Tie.RfaParams"]
-TRANSLATORS = ["t8_arrays", "t4_rfaloops", "t12_rfaparams"]
+MODULES = ["TWV.Tie.ArrayHelpers", "TWV.Properties.RfaImp", "TWV.Tie.RfaLoops", "TWV.Properties.C04", "TWV.Tie.RfaParams", "TWV.Tie.SmoothGlue"]
+TRANSLATORS = ["t8_arrays", "t4_rfaloops", "t12_rfaparams", "t15_smoothglue"]
 RULE = ("random cases over all six strategies plus a user-supplied sampling function: m in 2..20 (thorough: every (m,n) with "
         "m<=12, n<=16 per strategy and random m<=60, n<=64), integer or float, uniform or lattice-random x, parameters in "
         "the documented ranges (alpha dyadic in (0,1] or explicit a in 0..n, beta in [0,1], exponents, smoothing), plus "
